@@ -5,6 +5,7 @@ package main
 // session store (memory or Redis/miniredis), key provider, id generator, clock, token endpoint.
 
 import (
+	"compress/gzip"
 	"context"
 	"crypto"
 	"crypto/ecdsa"
@@ -29,6 +30,7 @@ import (
 	"sort"
 	"strings"
 	"sync"
+	"sync/atomic"
 	"time"
 
 	"github.com/alicebob/miniredis/v2"
@@ -40,6 +42,9 @@ import (
 	"google.golang.org/grpc/codes"
 
 	configv1 "github.com/istio-ecosystem/authservice/config/gen/go/v1"
+	"github.com/tetratelabs/telemetry"
+	"github.com/tetratelabs/telemetry/function"
+
 	oidcv1 "github.com/istio-ecosystem/authservice/config/gen/go/v1/oidc"
 	"github.com/istio-ecosystem/authservice/internal"
 	"github.com/istio-ecosystem/authservice/internal/authz"
@@ -62,7 +67,7 @@ var (
 	keys     *keyring
 )
 
-func b64u(b []byte) string { return base64.RawURLEncoding.EncodeToString(b) }
+func b64u(b []byte) string   { return base64.RawURLEncoding.EncodeToString(b) }
 func b64std(b []byte) string { return base64.StdEncoding.EncodeToString(b) }
 
 func getKeys() *keyring {
@@ -274,9 +279,9 @@ type effRec struct {
 	Eff string `json:"eff"` // Gallina
 	Ans string `json:"ans"` // Gallina
 	// structured copy for the Go-side bookkeeping and for replays
-	Kind string `json:"kind"`
-	Sid  string `json:"sid,omitempty"`
-	OK   bool   `json:"ok"`
+	Kind string                   `json:"kind"`
+	Sid  string                   `json:"sid,omitempty"`
+	OK   bool                     `json:"ok"`
 	Tok  *oidc.TokenResponse      `json:"tok,omitempty"`
 	Auth *oidc.AuthorizationState `json:"auth,omitempty"`
 	Form url.Values               `json:"form,omitempty"`
@@ -317,12 +322,13 @@ const (
 )
 
 type spyStore struct {
-	inner  oidc.SessionStore
-	rec    *recorder
-	mu     sync.Mutex
-	n      int               // store calls in the current request
-	faults map[int]faultKind // by call index in the current request
-	gate   func(kind, sid string) // optional: blocks until the scheduler lets the call run
+	inner    oidc.SessionStore
+	replicas []oidc.SessionStore // Redis: several store objects on one server (service replicas); each request is served by one of them
+	rec      *recorder
+	mu       sync.Mutex
+	n        int                    // store calls in the current request
+	faults   map[int]faultKind      // by call index in the current request
+	gate     func(kind, sid string) // optional: blocks until the scheduler lets the call run
 }
 
 func (s *spyStore) begin(kind, sid string) faultKind {
@@ -519,8 +525,9 @@ type idpServer struct {
 	Calls int
 	// route: for concurrent runs, a token endpoint path /t<N>/token belongs to thread N, which has its own
 	// recorder and gate; returns nil when the path carries no thread tag
-	route func(path string) (rec *recorder, gate func(), clean string)
+	route              func(path string) (rec *recorder, gate func(), clean string)
 	discovery, jwksDoc string
+	framing            int64
 	discoveryFor       func(rawQuery string) string // when set: the discovery document depends on the query (one provider, several policies)
 }
 
@@ -548,6 +555,8 @@ func galIdpAnswer(a idpAnswer) (string, string) {
 	return "(AIdp (IdpBody " + gal.Rec("b_id", gal.S(d.IDToken), "b_access", gal.S(d.AccessToken), "b_refresh", gal.S(d.RefreshToken),
 		"b_expires_in", gal.Z(int64(d.ExpiresIn)), "b_token_type", gal.S(d.TokenType)) + "))", "body"
 }
+
+func next3(p *int64) int64 { return atomic.AddInt64(p, 1) % 3 }
 
 func newIdpServer(rec *recorder) *idpServer {
 	s := &idpServer{rec: rec}
@@ -601,10 +610,31 @@ func newIdpServer(rec *recorder) *idpServer {
 				return
 			}
 		}
-		if ans.Status != 0 {
-			w.WriteHeader(ans.Status)
+		// the framing of the answer varies: with Content-Length, chunked (length unknown to the client), gzip-encoded
+		switch framing := next3(&s.framing); {
+		case framing == 1 && len(ans.Body) > 1:
+			if ans.Status != 0 {
+				w.WriteHeader(ans.Status)
+			}
+			io.WriteString(w, ans.Body[:len(ans.Body)/2])
+			if fl, ok := w.(http.Flusher); ok {
+				fl.Flush()
+			}
+			io.WriteString(w, ans.Body[len(ans.Body)/2:])
+		case framing == 2 && strings.Contains(r.Header.Get("Accept-Encoding"), "gzip"):
+			w.Header().Set("Content-Encoding", "gzip")
+			if ans.Status != 0 {
+				w.WriteHeader(ans.Status)
+			}
+			zw := gzip.NewWriter(w)
+			io.WriteString(zw, ans.Body)
+			zw.Close()
+		default:
+			if ans.Status != 0 {
+				w.WriteHeader(ans.Status)
+			}
+			io.WriteString(w, ans.Body)
 		}
-		io.WriteString(w, ans.Body)
 	}))
 	return s
 }
@@ -632,9 +662,12 @@ type World struct {
 	// NextCmdFaults: Redis commands (lower-case names) to fail once during the next request
 	NextCmdFaults []string
 	// late observation: the previous response object is looked at again after the next check was built
-	lastResp *envoy.CheckResponse
-	lastGal  string
+	lastResp      *envoy.CheckResponse
+	lastGal       string
 	LateMutations []string
+	// requests served so far (Redis: selects the replica that serves the next one); PinReplica keeps the first replica
+	reqCount   int
+	PinReplica bool
 }
 
 type cfgOpts struct {
@@ -653,9 +686,33 @@ type cfgOpts struct {
 	Secret      string
 	Store       string // memory redis
 	Abs, Idle   int    // seconds
+	DebugLog    bool   // every logging scope at debug level (the service's log_level "all:debug"): the debug-only code paths run
+}
+
+var logSystemOnce sync.Once
+
+// setLogging brings the service's logging system up once (output is formatted and discarded) and puts every scope at
+// debug or info level: at debug level the handler logs tokens and states and wraps its HTTP client in the logging
+// round tripper.
+func setLogging(debug bool) {
+	logSystemOnce.Do(func() {
+		lg := function.NewLogger(func(level telemetry.Level, msg string, err error, values function.Values) {
+			_, _ = fmt.Fprint(io.Discard, msg, err, values.FromContext, values.FromLogger, values.FromMethod)
+		})
+		_ = internal.NewLogSystem(lg, &configv1.Config{})
+	})
+	lvl := telemetry.LevelInfo
+	if debug {
+		lvl = telemetry.LevelDebug
+	}
+	for _, name := range []string{internal.Authz, internal.Config, internal.Default, internal.Health, internal.IDP, internal.JWKS,
+		internal.Requests, internal.Server, internal.Session, internal.K8s} {
+		internal.Logger(name).SetLevel(lvl)
+	}
 }
 
 func newWorld(seed int64, o cfgOpts) *World {
+	setLogging(o.DebugLog)
 	w := &World{rec: &recorder{}, keys: getKeys(), tokdb: map[string]tokDesc{}, StoreKind: o.Store,
 		now: time.Unix(1_700_000_000, 0), tlsPool: internal.NewTLSConfigPool(context.Background())}
 	w.clock = &oidc.Clock{NowFn: func() time.Time { return w.now }}
@@ -664,15 +721,34 @@ func newWorld(seed int64, o cfgOpts) *World {
 	if o.AuthQuery != "" {
 		authURI += "?" + o.AuthQuery
 	}
-	w.idp.discovery = fmt.Sprintf(`{"issuer":%q,"authorization_endpoint":%q,"token_endpoint":%q,"jwks_uri":%q,"end_session_endpoint":%q}`,
-		w.idp.srv.URL, authURI, w.idp.srv.URL+"/token", w.idp.srv.URL+"/jwks", w.idp.srv.URL+"/endsession?x=1")
+	// optional provider metadata, varied per world: none of it may change what the service sends
+	dr := mrand.New(mrand.NewSource(seed ^ 0x5eed))
+	extras := ""
+	for _, m := range []struct {
+		name string
+		vals []string
+	}{
+		{"code_challenge_methods_supported", []string{"", `["S256"]`, `["plain"]`, `["plain","S256"]`, `[]`}},
+		{"token_endpoint_auth_methods_supported", []string{"", `["client_secret_basic"]`, `["client_secret_post"]`, `["private_key_jwt","client_secret_post"]`}},
+		{"response_types_supported", []string{"", `["code"]`, `["id_token","token"]`}},
+		{"scopes_supported", []string{"", `["openid"]`, `["profile"]`}},
+		{"id_token_signing_alg_values_supported", []string{"", `["RS256"]`, `["none"]`, `["HS256"]`}},
+		{"grant_types_supported", []string{"", `["authorization_code"]`, `["implicit"]`}},
+		{"subject_types_supported", []string{"", `["public"]`}},
+	} {
+		if v := m.vals[dr.Intn(len(m.vals))]; v != "" {
+			extras += fmt.Sprintf(",%q:%s", m.name, v)
+		}
+	}
+	w.idp.discovery = fmt.Sprintf(`{"issuer":%q,"authorization_endpoint":%q,"token_endpoint":%q,"jwks_uri":%q,"end_session_endpoint":%q%s}`,
+		w.idp.srv.URL, authURI, w.idp.srv.URL+"/token", w.idp.srv.URL+"/jwks", w.idp.srv.URL+"/endsession?x=1", extras)
 	w.idp.jwksDoc = w.keys.jwksDoc
 	w.Cfg = &oidcv1.OIDCConfig{
 		AuthorizationUri: authURI, TokenUri: w.idp.srv.URL + "/token", CallbackUri: o.CallbackURI,
 		JwksConfig: &oidcv1.OIDCConfig_Jwks{Jwks: w.keys.jwksDoc}, ClientId: o.ClientID,
 		ClientSecretConfig: &oidcv1.OIDCConfig_ClientSecret{ClientSecret: o.Secret},
 		Scopes:             o.Scopes, CookieNamePrefix: o.Prefix,
-		IdToken:            &oidcv1.TokenConfig{Header: o.IDHeader, Preamble: o.IDPreamble},
+		IdToken:                &oidcv1.TokenConfig{Header: o.IDHeader, Preamble: o.IDPreamble},
 		AbsoluteSessionTimeout: uint32(o.Abs), IdleSessionTimeout: uint32(o.Idle),
 	}
 	if o.Access {
@@ -691,6 +767,7 @@ func newWorld(seed int64, o cfgOpts) *World {
 	}
 	w.Abs, w.Idle = time.Duration(o.Abs)*time.Second, time.Duration(o.Idle)*time.Second
 	var inner oidc.SessionStore
+	var replicas []oidc.SessionStore
 	if o.Store == "redis" {
 		var err error
 		w.mr, err = miniredis.Run()
@@ -701,10 +778,13 @@ func newWorld(seed int64, o cfgOpts) *World {
 		w.rcli.AddHook(w.rhook)
 		inner, err = oidc.NewRedisStore(w.clock, w.rcli, w.Abs, w.Idle)
 		must(err)
+		second, err := oidc.NewRedisStore(w.clock, w.rcli, w.Abs, w.Idle)
+		must(err)
+		replicas = []oidc.SessionStore{inner, second}
 	} else {
 		inner = oidc.NewMemoryStore(w.clock, w.Abs, w.Idle)
 	}
-	w.store = &spyStore{inner: inner, rec: w.rec, faults: map[int]faultKind{}}
+	w.store = &spyStore{inner: inner, replicas: replicas, rec: w.rec, faults: map[int]faultKind{}}
 	prov := oidc.NewJWKSProvider(&configv1.Config{}, w.tlsPool)
 	var ctx context.Context
 	ctx, w.cancel = context.WithCancel(context.Background())
@@ -763,7 +843,9 @@ func (h *cmdFaultHook) ProcessHook(next redis.ProcessHook) redis.ProcessHook {
 		return next(ctx, cmd)
 	}
 }
-func (h *cmdFaultHook) ProcessPipelineHook(next redis.ProcessPipelineHook) redis.ProcessPipelineHook { return next }
+func (h *cmdFaultHook) ProcessPipelineHook(next redis.ProcessPipelineHook) redis.ProcessPipelineHook {
+	return next
+}
 
 // ---------------------------------------------------------------- one request
 
@@ -783,13 +865,13 @@ type obsResp struct {
 }
 
 type stepRec struct {
-	Now    int64    `json:"now_ns"`
-	Req    reqSpec  `json:"request"`
-	Faults map[int]string `json:"faults,omitempty"`
-	JwksFail bool   `json:"jwks_fail,omitempty"`
-	CmdFaults []string `json:"redis_command_faults,omitempty"`
-	Trace  []effRec `json:"trace"`
-	Resp   obsResp  `json:"response"`
+	Now       int64          `json:"now_ns"`
+	Req       reqSpec        `json:"request"`
+	Faults    map[int]string `json:"faults,omitempty"`
+	JwksFail  bool           `json:"jwks_fail,omitempty"`
+	CmdFaults []string       `json:"redis_command_faults,omitempty"`
+	Trace     []effRec       `json:"trace"`
+	Resp      obsResp        `json:"response"`
 }
 
 var codeGal = map[codes.Code]string{codes.OK: "GOk", codes.InvalidArgument: "GInvalidArgument", codes.Unauthenticated: "GUnauthenticated",
@@ -854,6 +936,10 @@ func (r reqSpec) gal() string {
 func (w *World) Do(r reqSpec, faults map[int]faultKind, jwksFail bool) stepRec {
 	w.rec.trace = nil
 	w.store.n = 0
+	if n := len(w.store.replicas); n > 0 && !w.PinReplica { // any replica attached to the same Redis serves any session
+		w.reqCount++
+		w.store.inner = w.store.replicas[(w.reqCount*7/3)%n]
+	}
 	w.store.faults = faults
 	if w.store.faults == nil {
 		w.store.faults = map[int]faultKind{}
